@@ -64,7 +64,7 @@ Definition cur_val (s : store N) (n : name) : N :=
   match entry s n with Some e => val e | None => 999997%N end.
 
 (* A nil pointer-to-unmarshaler field that carries a tag is allocated by checkUnmarshal while
-   PARSING (fields.go:251), whatever happens afterwards; the model does not track that allocation,
+   PARSING (fields.go:254-256), whatever happens afterwards; the model does not track that allocation,
    so for such a field "untouched" is only required to mean "UnmarshalBinary was not called". *)
 Definition alloc_at_parse (f : field) : bool :=
   match fty f, ftag f with TUnmPtr true, Some _ => true | _, _ => false end.
